@@ -4,7 +4,7 @@ S3: Props/C20.v over Model/Config.v (try_as_optimum, faithful to the old-poling 
     Findings/C20_old_idler.v (refuted unconditional idempotence) built separately.
 S4: the model of try_as_optimum is run (vm_compute, Q instance) on recorded oracle answers for the first and the second
     optimisation of every setup; outcome and every field must agree with SPDC::try_as_optimum.
-S5: Rust-vs-Rust: idempotence; the collinear oracle contracts the idempotence theorem assumes; every normalised accessor
+S5: Rust-vs-Rust: idempotence (bit for bit); what optimising keeps; the collinear oracle contracts the idempotence theorem assumes; every normalised accessor
     (point and range variants, idler variants) against raw / reference through the public API to 1e-12; unit at the centre;
     normalised JSI = |normalised JSA|^2; sweep normalisation."""
 from vlib.common import *
@@ -87,6 +87,14 @@ def correspondence(ctx, obs, units):
     return nbad
 
 
+def cc_get(d, path):
+    for k in path.split("."):
+        if not isinstance(d, dict):
+            return None
+        d = d.get(k)
+    return d
+
+
 def cval(v):
     return complex(f64_of_hex(v[0]), f64_of_hex(v[1]))
 
@@ -112,7 +120,14 @@ def oracle(ctx, obs):
             ctx.violation("S5", f"optimising the optimised setup ends {sec and sec['class']}: {sec and sec['msg'][:100]}",
                           {"kind": "second_optimisation_fails"}, detail)
         else:
-            diffs = [d for d in fields_diff(f1["setup"], sec["setup"]) if d[3] > TOL]
+            # "unchanged": BIT FOR BIT wherever the second optimisation recomputes the same floats -- the optimised signal is
+            # collinear (theta = 0 exactly), so every kernel gets the same arguments.  The one exception: a counter-propagating
+            # signal turned backward (theta = 180 deg: sin(pi) = 1.2e-16, not 0) makes the idler's emission angle depend, at the
+            # 1e-16 level, on the poling it is computed with (old poling first, new poling second): there 1e-12 is used.
+            backward = abs(f64_of_hex(f1["setup"]["signal"]["theta"])) > 3.0
+            alld = fields_diff(f1["setup"], sec["setup"])
+            diffs = [d for d in alld if d[3] > (TOL if backward else 0.0)]
+            ctx.count("idempotence_checked:" + ("backward_signal_1e-12" if backward else "bitwise"))
             if diffs:
                 cause = "old_idler_used_for_idler_waist_position" if (not o.get("idler_consistent") and all(d[0] == "zi" for d in diffs)) else "other"
                 ctx.violation("S5", "optimising is not idempotent: optimising the optimised setup again changes " +
@@ -122,7 +137,35 @@ def oracle(ctx, obs):
                               {"kind": "not_idempotent", "cause": cause}, dict(detail, first=f1["setup"], second=sec["setup"]))
             if not o.get("third_same", True):
                 ctx.violation("S5", "a third optimisation still changes the setup", {"kind": "not_idempotent_after_two"}, detail)
-        idem = sec is not None and sec.get("same")
+        idem = sec is not None and (sec.get("same") or not [d for d in fields_diff(f1["setup"], sec["setup"]) if d[3] > TOL])
+        # ---- what optimisation keeps (C20_optimum_keeps, C20_optimum_keeps_more), bit for bit
+        s0, s1 = o["setup"], f1["setup"]
+        ctx.count("keeps_checked")
+        kept = [("crystal.kind",), ("crystal.pm",), ("crystal.phi",), ("crystal.length",), ("crystal.temperature",), ("crystal.counter",),
+                ("signal.pol",), ("signal.wavelength",), ("signal.waist",), ("idler.waist",), ("pump",), ("bandwidth",), ("power",),
+                ("threshold",), ("deff",)]
+        for (pth,) in kept:
+            if cc_get(s0, pth) != cc_get(s1, pth):
+                ctx.violation("S5", f"optimising changes {pth}: {cc_get(s0, pth)!r} -> {cc_get(s1, pth)!r}", {"kind": "optimum_keeps", "field": pth},
+                              dict(detail, before=s0, after=s1))
+        if s0["pp"]["on"] != s1["pp"]["on"] or (s0["pp"]["on"] and s0["pp"].get("apod") != s1["pp"].get("apod")):
+            ctx.violation("S5", "optimising switches the poling on/off or changes its apodization", {"kind": "optimum_keeps", "field": "pp.apodization"},
+                          dict(detail, before=s0["pp"], after=s1["pp"]))
+        if s0["pp"]["on"] and s0["crystal"] != s1["crystal"]:
+            ctx.violation("S5", "optimising a poled setup changes the crystal", {"kind": "optimum_keeps", "field": "crystal"}, dict(detail, before=s0, after=s1))
+        th1 = f64_of_hex(s1["signal"]["theta"])
+        if not (th1 == 0.0 or abs(th1 - 3.141592653589793) < 1e-15):
+            ctx.violation("S5", f"the optimised signal is not collinear: theta = {th1!r}", {"kind": "optimum_keeps", "field": "signal.theta"}, detail)
+        want_pol = {"o": "Ordinary", "e": "Extraordinary"}.get(str(s0["crystal"]["pm"])[-1])
+        if want_pol and s1["idler"]["pol"] != want_pol:
+            ctx.violation("S5", f"the optimised idler's polarization {s1['idler']['pol']} is not the type's ({s0['crystal']['pm']})",
+                          {"kind": "optimum_keeps", "field": "idler.pol"}, detail)
+        ph_s, ph_i = f64_of_hex(s1["signal"]["phi"]), f64_of_hex(s1["idler"]["phi"])
+        if abs(((ph_i - ph_s - 3.141592653589793 + 3.141592653589793) % (2 * 3.141592653589793)) - 3.141592653589793) > 1e-12:
+            ctx.violation("S5", f"the optimised idler's azimuth {ph_i!r} is not opposite to the signal's {ph_s!r}", {"kind": "optimum_keeps", "field": "idler.phi"}, detail)
+        ls, lp, li = f64_of_hex(s1["signal"]["wavelength"]), f64_of_hex(s1["pump"]["wavelength"]), f64_of_hex(s1["idler"]["wavelength"])
+        if abs(li - ls * lp / (ls - lp)) > 1e-12 * li:
+            ctx.violation("S5", "the optimised idler's wavelength is not the energy-conserving one", {"kind": "optimum_keeps", "field": "idler.wavelength"}, detail)
         # ---- oracle contracts assumed by C20_idempotent (collinear signal)
         for sh in (o["shadow"], o.get("shadow2")):
             if not sh:
@@ -150,14 +193,22 @@ def oracle(ctx, obs):
             continue
         ra, ri, rs = f64_of_hex(sp["ref_jsa"]), f64_of_hex(sp["ref_jsi"]), f64_of_hex(sp["ref_sing"])
         if not (ra > 0 and ri > 0 and rs > 0):
-            ctx.count("reference_zero")
+            ctx.count("reference_zero_or_nonfinite")
             continue
+        ctx.count("spectrum_cases_with_nonzero_reference")
+        ctx.count("spectrum_integrator:" + str(sp.get("integrator", "simpson10")))
         rows = sp["rows"]
         bad = []
         for k, r in enumerate(rows):
             ctx.cov["evaluations"] += 1
             jsa, jsi, sing = cval(r["jsa"]), f64_of_hex(r["jsi"]), f64_of_hex(r["sing"])
             jn, in_, sn = cval(r["jsa_n"]), f64_of_hex(r["jsi_n"]), f64_of_hex(r["sing_n"])
+            if jsa != jsa or jsi != jsi or sing != sing:
+                # a non-finite RAW value is C17's subject (finding F7i); here only: the normalised value must be non-finite too
+                ctx.count("raw_nonfinite_point_left_to_C17")
+                if (jsa != jsa) != (jn != jn) or (jsi != jsi) != (in_ != in_) or (sing != sing) != (sn != sn):
+                    bad.append(("normalised value finite where the raw value is not (or conversely)", k, None, None))
+                continue
             e = jsa / ra
             if not (close(jn.real, e.real, abs(e)) and close(jn.imag, e.imag, abs(e))):
                 bad.append(("jsa_normalized", k, jn, e))
@@ -179,7 +230,13 @@ def oracle(ctx, obs):
         if swr > 0 and len(sw["sing"]) == ng:
             for k in range(ng):
                 got = f64_of_hex(rg["idler_sing_n"][k])
-                want = f64_of_hex(sw["sing"][k]) / swr
+                rawk = f64_of_hex(sw["sing"][k])
+                if rawk != rawk:
+                    ctx.count("raw_nonfinite_point_left_to_C17")
+                    if got == got:
+                        bad.append(("normalised idler singles finite where the raw value is not", k, got, rawk))
+                    continue
+                want = rawk / swr
                 if not close(got, want):
                     bad.append(("jsi_singles_idler_normalized_range", k, got, want))
                 if rg["idler_sing"][k] != sw["sing"][k]:
@@ -203,6 +260,11 @@ def oracle(ctx, obs):
             per = [f64_of_hex(x) for x in swp["per_setup_jsi"]]
             for k in range(len(raw)):
                 ctx.cov["evaluations"] += 1
+                if raw[k] != raw[k]:
+                    ctx.count("raw_nonfinite_point_left_to_C17")
+                    if nrm[k] == nrm[k]:
+                        ctx.violation("S5", "sweep: normalised value finite where the raw value is NaN", {"kind": "sweep_normalisation"}, dict(detail, k=k))
+                    continue
                 if not close(nrm[k], raw[k] / ri):
                     ctx.violation("S5", f"sweep: normalised value {nrm[k]!r} is not raw value / reference = {raw[k] / ri!r}",
                                   {"kind": "sweep_normalisation"}, dict(detail, k=k))
@@ -239,24 +301,46 @@ def run(ctx):
                         "reference_jsi": f64_of_hex(o["spectrum"]["ref_jsi"]) if o.get("spectrum", {}).get("class") == "ok" else None}, limit=5)
     nbad = correspondence(ctx, obs, units)
     oracle(ctx, obs)
-    if (not proved or nbad) and not any(v["found_input"] for v in ctx.violations):
+    if not getattr(ctx, "replay", None):
+        # the normalisation clauses are only exercised where the reference is not 0: require a minimum number of such cases,
+        # one of them with the library's default integrator, and a minimum number of bitwise idempotence checks
+        need = 8 if ctx.tier == "quick" else 100
+        h = ctx.cov.get("histogram", {})
+        got = h.get("spectrum_cases_with_nonzero_reference", 0)
+        if got < need:
+            ctx.violation("S5", f"only {got} spectrum cases with a non-zero reference (at least {need} required): the normalisation clauses "
+                          "were not exercised enough", {"kind": "coverage", "what": "nonzero_reference"}, {"got": got, "need": need}, found_input=False)
+        if h.get("spectrum_integrator:default", 0) < 1:
+            ctx.violation("S5", "no spectrum case with the default integrator", {"kind": "coverage", "what": "default_integrator"}, {}, found_input=False)
+        if h.get("idempotence_checked:bitwise", 0) < (20 if ctx.tier == "quick" else 500):
+            ctx.violation("S5", "too few bitwise idempotence checks", {"kind": "coverage", "what": "idempotence"},
+                          {"got": h.get("idempotence_checked:bitwise", 0)}, found_input=False)
+    if (not proved or nbad) and not cc.unknown_failing_input(ctx):
         ctx.log("S5 deep search for a failing input")
         obs2 = run_harness(ctx, binp, ["c20", ctx.seed + 15485863, 400, 60], timeout=1500)
         oracle(ctx, obs2)
     ctx.cov["rule"] = ("setups built from structured valid configurations (11 crystals x 5 types x poling off/auto/explicit with apodization x "
-                       "collinear/non-collinear signals x auto/explicit idlers x waists x waist positions) + targeted ones (explicit idler "
-                       "energy-conserving / not); per setup: first, second, third optimisation; for a subset: 3x3 frequency grid around the "
-                       "centre + the optimum's centre + the setup's centre, range and idler variants, a 2x2 sweep; distinct = distinct JSON text")
+                       "collinear/non-collinear signals x auto/explicit idlers x waists x waist positions x counter_propagation true/false/omitted) "
+                       "+ targeted ones (explicit idler energy-conserving / not, counter-propagating); per setup: first, second, third "
+                       "optimisation; for a subset: 3x3 frequency grid around the centre + the optimum's centre + the setup's centre, range and "
+                       "idler variants, a 2x2 sweep, Simpson with 10 divisions and (one case) the default integrator; distinct = distinct JSON text")
     ctx.cov["clauses"] = {
-        "optimising is idempotent": "proved for idler-consistent setups and for the second optimisation of ANY setup (all oracles satisfying the collinear contracts); "
-                                    "unconditional statement REFUTED (old idler used for the idler waist position); contracts validated per input",
-        "normalised value = raw value / raw value at the optimised setup's centre": "proved (all oracles) + validated to 1e-12 for all seven accessors",
+        "optimising is idempotent": "proved for EVERY setup on the code as it is (C20_idempotent_now: the generator reads off the source that the "
+                                    "idler waist position comes from the NEW idler) for all oracles satisfying the collinear contract, and per setup "
+                                    "(C20_idempotent_now_at); for the composed model under 'the idler angle is defined under the poling before and "
+                                    "after'; validated BIT FOR BIT (1e-12 only for a backward counter-propagating signal); contracts validated per input",
+        "what optimising keeps": "proved (C20_optimum_keeps, C20_optimum_keeps_more: crystal kind/azimuth/length/temperature/type/counter-propagation, "
+                                 "signal wavelength/waist/polarization, idler waist, pump, bandwidth, power, threshold, deff, poling on/off and "
+                                 "apodization; the new idler: energy-conserving, the type's polarization, azimuth opposite to the signal) + validated bit for bit",
+        "normalised value = raw value / raw value at the optimised setup's centre": "proved (all oracles, where the reference is not 0) + validated to "
+                                                                                  "1e-12 for all seven accessors on a required minimum number of non-zero references",
         "unit at the centre of an optimised setup": "proved (corollary of idempotence) + validated",
         "normalised JSI = |normalised JSA|^2": "proved + validated",
-        "sweep normalisation": "proved + validated"}
+        "sweep normalisation": "proved (non-zero reference) + validated"}
     return finish(ctx, assumptions=[
         "L4 structural models; optimiser kernels, raw spectra and normalisation factors are oracles; try_as_optimum's oracle answers are recorded "
         "from the implementation through the public API and the model's result is compared field by field",
         "collinear contracts (external angle of a collinear beam independent of the crystal angle; idler angle of a collinear signal independent "
         "of the poling; angle search independent of the current crystal angle) are checked on every input",
-        "binary64 evaluation measured (1e-12), not proved"])
+        "the oracle tables carry the arguments of the public calls behind each recorded answer; the model's oracles answer only for those arguments",
+        "binary64 evaluation of the quotients measured (1e-12), not proved; non-finite raw values are left to C17 (F7i)"])
